@@ -475,7 +475,7 @@ def validate_records(module, cfg, records, nchunks=16, timeout=1800, idvar="i", 
             if r.violated and r.violated != ["<postcondition>"]:
                 # find index of the offending record in the last state of the error trace
                 idx = None
-                for mm in re.finditer(r"^/\\ %s = (\d+)\s*$" % re.escape(idvar), r.out, flags=re.M):
+                for mm in re.finditer(r"^(?:/\\ )?%s = (\d+)\s*$" % re.escape(idvar), r.out, flags=re.M):
                     idx = int(mm.group(1))
                 if idx is None or not (1 <= idx <= len(chunk)):
                     raise MachineryError("cannot locate rejected record:\n" + r.out[-3000:])
